@@ -326,6 +326,8 @@ def verify_proportional(run):
     pre = [self_ != NONE, block != NONE, cls_of(vstar) == OUT, BATCH >= 1, kstar >= 0, kstar < L] + W.wf_output_variable(sc, H0, vstar) + [W.not_a_fuzzy_output(H0, ostar)]
     outs = ex.run_fn(fn, HPath({"self": RefV(self_, cls), "rule_block": RefV(block, "RuleBlock")}, pre, H0))
     rp = {"module": W_N, "func": "replay_activation", "kwargs": {"method": cls}, "vars": {}}
+    from pyvc.hlib import split_invariants
+    split_invariants(ex)
     emit(run, ex, fq, [], rp)
     scalar = [BATCH == 1]
     r = rule(kstar)
